@@ -1,0 +1,45 @@
+//go:build verif
+
+package deferred
+
+// Contracts for the verification machinery in /verif (comment-only; see /verif/DESIGN.md).
+//
+// fx(dcw) counts the externally visible effects of the lazy writer: opening / creating the output file and
+// constructing the CAR writer (which writes the header).  They may only happen inside writer(), and only while
+// dcw.w == nil.
+
+//@ func (*DeferredCarWriter).writer
+//@   modifies fx(dcw), dcw.w, dcw.f
+//@   effects require only_first_time [C20]: old(dcw.w) == nil
+//@   call[os.OpenFile#0] assert flags [C05,C20]: arg0 == dcw.outPath && arg1 == 577 && dcw.outStream == nil
+//@   call[storage.NewWritable#0] assert same_as_direct_writer [C20]: arg1 == dcw.roots && arg2 == dcw.opts && (dcw.outStream != nil ==> ref(arg0) == ref(dcw.outStream)) && (dcw.outStream == nil ==> ref(arg0) == ref(dcw.f))
+//@   ghost after call[os.OpenFile#0]: fx(dcw) := fx(dcw) + 1
+//@   ghost after call[storage.NewWritable#0]: fx(dcw) := fx(dcw) + 1
+//@   ensures initialised_is_pure [C20]: old(dcw.w) != nil ==> err == nil && result0 == old(dcw.w) && fx(dcw) == old(fx(dcw)) && dcw.w == old(dcw.w)
+//@   ensures ok_sets_writer [C20]: err == nil ==> result0 == dcw.w && dcw.w != nil
+//@   ensures fail_keeps_nil [C20]: err != nil ==> dcw.w == nil
+
+//@ func (*DeferredCarWriter).Has
+//@   requires unlocked [C08]: held(dcw.lk) == 0
+//@   effects require never [C20]: false
+//@   ensures lazy [C20]: old(dcw.w) == nil ==> fx(dcw) == old(fx(dcw)) && !result0 && dcw.w == nil
+//@   ensures closed_err [C20]: old(dcw.closed) ==> err == carstorage.ErrClosed && !result0 && fx(dcw) == old(fx(dcw))
+//@   ensures released [C08]: held(dcw.lk) == 0
+//@   call[Storage.Has#0] assert delegate [C20]: arg1 == ctx && arg2 == key && dcw.w != nil && ref(arg0) == ref(dcw.w)
+
+//@ func (*DeferredCarWriter).Put
+//@   requires unlocked [C08]: held(dcw.lk) == 0
+//@   effects require never_directly [C20]: false
+//@   loop[0] invariant index_in_range [C09]: 0 <= i && i <= len(dcw.putCb)
+//@   loop[0] invariant still_open [C20]: !old(dcw.closed) && fx(dcw) == old(fx(dcw)) && dcw.w == old(dcw.w)
+//@   ensures closed_err [C20]: old(dcw.closed) ==> err == carstorage.ErrClosed && fx(dcw) == old(fx(dcw)) && dcw.w == old(dcw.w)
+//@   call[WritableStorage.Put#0] assert delegate [C20]: arg1 == ctx && arg2 == key && ref(arg3) == ref(content) && ref(arg0) == ref(dcw.w) && !old(dcw.closed)
+//@   ensures released [C08]: held(dcw.lk) == 0
+
+//@ func (*DeferredCarWriter).Close
+//@   requires unlocked [C08]: held(dcw.lk) == 0
+//@   ensures closed [C20]: dcw.closed
+//@   ensures twice_err [C20]: old(dcw.closed) ==> err == carstorage.ErrClosed
+//@   ensures no_finalize_without_writer [C20]: old(dcw.w) == nil ==> fx(dcw) == old(fx(dcw))
+//@   call[WritableCar.Finalize#0] assert only_if_written [C20]: dcw.w != nil && !old(dcw.closed)
+//@   ensures released [C08]: held(dcw.lk) == 0
